@@ -132,6 +132,8 @@ func (p *Parser) Parse(buf []byte, args ...any) (any, error) {
 	p.line = 1
 	p.mode = valueMap
 	p.mi = 0
+	p.plus = false
+	p.lastStrKey = emptyKey
 	var err error
 	// Skip BOM if present.
 	if 3 < len(buf) && buf[0] == 0xEF {
@@ -199,6 +201,8 @@ func (p *Parser) ParseReader(r io.Reader, args ...any) (data any, err error) {
 	p.noff = -1
 	p.line = 1
 	p.mi = 0
+	p.plus = false
+	p.lastStrKey = emptyKey
 	buf := make([]byte, readBufSize)
 	eof := false
 	var cnt int
